@@ -29,6 +29,7 @@ CONSTANTS
   Confs,         \* gradle configurations of the alphabet
   SurroundLevel, \* 0: nothing around; 1: a few section sets; 2: all section kinds
   SrcMax,        \* number of Java sources (0..2)
+  ImpMax,        \* imports per source (1..2)
   Units,         \* kinds of the only type of a source file
   ExtraImports   \* import names besides <group>.Api and <group>.*
 
@@ -129,7 +130,8 @@ Manifest(k, b, a) == [kind |-> k, dir |-> "", before |-> b, after |-> a, entries
 \* Java sources
 ImportPool == UNION {{[name |-> g \o ".Api", form |-> "type"], [name |-> g, form |-> "star"]} : g \in Groups}
               \cup {[name |-> n, form |-> "type"] : n \in ExtraImports}
-ImportLists == {<<>>} \cup {<<a>> : a \in ImportPool} \cup {<<p[1], p[2]>> : p \in {q \in ImportPool \X ImportPool : q[1] # q[2]}}
+ImportLists == {<<>>} \cup {<<a>> : a \in ImportPool}
+               \cup (IF ImpMax >= 2 THEN {<<p[1], p[2]>> : p \in {q \in ImportPool \X ImportPool : q[1] # q[2]}} ELSE {})
 Source(u, is) == [dir |-> "", tree |-> "main", unit |-> u, imports |-> is]
 OneSource == {Source(u, is) : u \in Units, is \in ImportLists \ {<<>>}}
 SourceChoices == {<<>>} \cup (IF SrcMax >= 1 THEN {<<s>> : s \in OneSource} ELSE {})
